@@ -1,10 +1,186 @@
-/- driver for C07 : to be filled in (stub keeps Main.lean compiling) -/
+/- driver for C07: Float instantiation of Model/Config.lean (`cfg`) and of the DE2 step with an evaluation order
+   (`de2map`, on top of the shared solver driver) -/
 import MysticVerif.Basic.Proto
+import MysticVerif.Model.Config
+import MysticVerif.Model.Schedule
+import MysticVerif.Drv.SolverDrv
 
 namespace MysticVerif.DrvC07
-open MysticVerif
+open MysticVerif MysticVerif.Config MysticVerif.Solver MysticVerif.Sched
+
+abbrev V := List Float
+
+/-! ### parsing -/
+
+def optNat? : Val → Option (Option Nat)
+  | .sym "none" => some none
+  | v => v.asNat?.map some
+
+def optBool? : Val → Option (Option Bool)
+  | .sym "none" => some none
+  | v => v.asBool?.map some
+
+def optVec? : Val → Option (Option V)
+  | .sym "none" => some none
+  | v => v.asFloats?.map some
+
+def kind? : Val → Option Kind
+  | .sym "abstract" => some .abstract
+  | .sym "de" => some .de
+  | .sym "powell" => some .powell
+  | .sym "ensemble" => some .ensemble
+  | _ => none
+
+def mon? : Val → Option Mon
+  | .list [i, n, r] => do pure { id := ← i.asNat?, null := ← n.asBool?, recs := ← r.asNats? }
+  | _ => none
+
+def optMon? : Val → Option (Option Mon)
+  | .sym "none" => some none
+  | v => (mon? v).map some
+
+def lim? : Val → Option Lim
+  | .sym "none" => some .none
+  | .sym "star" => some .star
+  | v => v.asNat?.map .val
+
+def bnd? : Val → Option BndMode
+  | .sym "ident" => some .ident
+  | .sym "symbolic" => some .symbolic
+  | .sym "clip" => some (.impose true)
+  | .sym "rand" => some (.impose false)
+  | _ => none
+
+def op? : Val → Option (Op Float)
+  | .list [.sym "red", .sym "none", al] => do pure (.setReducer none (← al.asBool?))
+  | .list [.sym "red", f, al] => do pure (.setReducer (some (← f.asNat?)) (← al.asBool?))
+  | .list [.sym "pen", p] => do pure (.setPenalty (← optNat? p))
+  | .list [.sym "con", c] => do pure (.setConstraints (← optNat? c))
+  | .list [.sym "smon", m, nw] => do pure (.setGenerationMonitor (← optMon? m) (← nw.asBool?))
+  | .list [.sym "emon", m, nw] => do pure (.setEvaluationMonitor (← optMon? m) (← nw.asBool?))
+  | .list [.sym "ranges", off, mn, mx, t, c] => do
+    pure (.setStrictRanges (← off.asBool?) (← optVec? mn) (← optVec? mx) (← optBool? t) (← optBool? c))
+  | .list [.sym "limits", g, e, nw] => do pure (.setEvaluationLimits (← optNat? g) (← optNat? e) (← nw.asBool?))
+  | .list [.sym "term", t, c] => do pure (.setTermination (← optNat? t) (← c.asBool?))
+  | .list [.sym "obj", c] => do pure (.setObjective (← c.asNat?))
+  | .list [.sym "save", g, f] => do pure (.setSaveFrequency (← optNat? g) (← optNat? f))
+  | .list [.sym "map", m, c] => do pure (.setMapper (← m.asNat?) (← c.asNat?))
+  | .list [.sym "sig", b] => do pure (.setSigint (← b.asBool?))
+  | .list [.sym "init", x0, r] => do pure (.setInitialPoints (← x0.asFloats?) (← r.asFloat?))
+  | .list [.sym "rand", mn, mx] => do pure (.setRandomInitialPoints (← optVec? mn) (← optVec? mx))
+  | _ => none
+
+def parseCfg (args : List Val) : Option (Cfg Float) := do
+  let kind ← (kw? args "kind").bind kind?
+  let nDim ← (kw? args "ndim").bind Val.asNat?
+  let dmin ← (kw? args "dmin").bind Val.asFloats?
+  let dmax ← (kw? args "dmax").bind Val.asFloats?
+  let best ← (kw? args "best").bind Val.asNat?
+  let fcalls ← (kw? args "fcalls").bind Val.asNat?
+  let reducer ← match kw? args "red" with
+    | some (.sym "none") => some none
+    | some (.list [i, al]) => do pure (some ((← i.asNat?), (← al.asBool?)))
+    | _ => none
+  let penalty ← (kw? args "pen").bind optNat?
+  let constraints ← (kw? args "con").bind optNat?
+  let termination ← (kw? args "term").bind optNat?
+  let collapse ← (kw? args "col").bind Val.asBool?
+  let stepmon ← (kw? args "smon").bind mon?
+  let evalmon ← (kw? args "emon").bind mon?
+  let ehist ← (kw? args "eh").bind optNat?
+  let shist ← (kw? args "sh").bind optNat?
+  let useStrict ← (kw? args "us").bind Val.asBool?
+  let tight ← (kw? args "tight").bind optBool?
+  let clip ← (kw? args "clip").bind optBool?
+  let smin ← (kw? args "smin").bind Val.asFloats?
+  let smax ← (kw? args "smax").bind Val.asFloats?
+  let bnd ← (kw? args "bnd").bind bnd?
+  let maxiter ← (kw? args "mi").bind lim?
+  let maxfun ← (kw? args "mf").bind lim?
+  let raw ← (kw? args "cost").bind optNat?
+  let decorated ← (kw? args "dec").bind Val.asBool?
+  let live ← (kw? args "live").bind Val.asBool?
+  let saveiter ← (kw? args "si").bind optNat?
+  let state ← (kw? args "st").bind optNat?
+  let map ← (kw? args "map").bind Val.asNat?
+  let mapcfg ← (kw? args "mcfg").bind Val.asNat?
+  let sigint ← (kw? args "sig").bind Val.asBool?
+  let population ← (kw? args "pop").bind Val.asList? |>.bind (·.mapM Val.asFloats?)
+  let rngPos ← (kw? args "rng").bind Val.asNat?
+  pure { kind, nDim, dmin, dmax, best, fcalls, reducer, penalty, constraints,
+         term := { termination, collapse }, stepmon, evalmon, hist := { ehist, shist },
+         ranges := { useStrict, tight, clip, smin, smax, bnd }, limits := { maxiter, maxfun },
+         cost := { raw, decorated }, live, save := { saveiter, state }, mapc := { map, mapcfg }, sigint,
+         pop := { population, rngPos } }
+
+/-! ### printing (the harness prints its observation of the real solver in the same format) -/
+
+def pON : Option Nat → String
+  | none => "none" | some n => toString n
+
+def pOB : Option Bool → String
+  | none => "none" | some b => pB b
+
+def pMon (m : Mon) : String := s!"({m.id} {pB m.null} {pNs m.recs})"
+
+def pLim : Lim → String
+  | .none => "none" | .star => "star" | .val n => toString n
+
+/-- symbolic clipping and `impose_bounds(clip=True)` are observed alike: both clip at the bounds -/
+def pBnd : BndMode → String
+  | .ident => "ident" | .symbolic => "clip" | .impose true => "clip" | .impose false => "rand"
+
+def showCfg (c : Cfg Float) : String :=
+  let red := match c.reducer with | none => "none" | some (i, al) => s!"({i} {pB al})"
+  let kind := match c.kind with | .abstract => "abstract" | .de => "de" | .powell => "powell" | .ensemble => "ensemble"
+  s!"(kind {kind}) (red {red}) (pen {pON c.penalty}) (con {pON c.constraints}) (term {pON c.term.termination}) " ++
+  s!"(col {pB c.term.collapse}) (smon {pMon c.stepmon}) (emon {pMon c.evalmon}) (eh {pON c.hist.ehist}) " ++
+  s!"(sh {pON c.hist.shist}) (us {pB c.ranges.useStrict}) (tight {pOB c.ranges.tight}) (clip {pOB c.ranges.clip}) " ++
+  s!"(smin {pFs c.ranges.smin}) (smax {pFs c.ranges.smax}) (bnd {pBnd c.ranges.bnd}) (mi {pLim c.limits.maxiter}) " ++
+  s!"(mf {pLim c.limits.maxfun}) (cost {pON c.cost.raw}) (dec {pB c.cost.decorated}) (live {pB c.live}) " ++
+  s!"(si {pON c.save.saveiter}) (st {pON c.save.state}) (map {c.mapc.map}) (mcfg {c.mapc.mapcfg}) (sig {pB c.sigint}) " ++
+  s!"(pop {pFss c.pop.population}) (rng {c.pop.rngPos})"
+
+/-- all pairs `i < j` of calls that the footprint table does NOT declare independent -/
+def depPairs (pl : Bool) (k : Kind) (ops : List (Op Float)) : List (Nat × Nat) :=
+  let idx := (List.range ops.length).zip ops
+  idx.flatMap fun (i, a) => idx.filterMap fun (j, b) =>
+    if i < j && !(Independent pl k a b) then some (i, j) else none
+
+def handleCfg (args : List Val) : String := Id.run do
+  let some c := parseCfg args | return "bad-op"
+  let some ops := (kw? args "ops").bind Val.asList? |>.bind (·.mapM op?) | return "bad-op"
+  let some us := (kw? args "u").bind Val.asFloats? | return "bad-op"
+  let ua := us.toArray
+  let u : Nat → Float := fun n => ua.getD n (0.0 / 0.0)
+  let fin := cfgAfter u c ops
+  let raised := raisedAfter u c ops
+  let deps := depPairs c.pl c.kind ops
+  let depS := "(" ++ " ".intercalate (deps.map fun (i, j) => s!"({i} {j})") ++ ")"
+  return s!"ok cfg=({showCfg fin}) raised={pL (raised.map pB)} dep={depS} pw={pB (PairwiseIndependent c.pl c.kind ops)} " ++
+    s!"consumed={rngConsumed u c ops} pl={pB c.pl}"
+
+/-! ### `de2map (cost ..) (pen ..) (cons ..) (box ..) (pop ..) (trials ((..) ..)) (orders ((..) ..))`:
+    generation 0 evaluates the members themselves; `orders` has one evaluation order per generation -/
+
+def handleDE2 (args : List Val) : String := Id.run do
+  let some su := SolverDrv.parseSetup args | return "bad-op"
+  let some pop := (kw? args "pop").bind Val.asList? |>.bind (·.mapM Val.asFloats?) | return "bad-op"
+  let some trialss := (kw? args "trials").bind Val.asList? |>.bind (·.mapM fun g => g.asList?.bind (·.mapM Val.asFloats?)) | return "bad-op"
+  let some orders := (kw? args "orders").bind Val.asList? |>.bind (·.mapM Val.asNats?) | return "bad-op"
+  let o := su.obj
+  let pop := match su.box with | some b => pop.map b.clip0 | none => pop
+  let x0 := pop.headD []
+  let mut s : DE V Float := DE.init o pop x0
+  let mut outs : Array String := #[]
+  for (ts, π) in ([pop] ++ trialss).zip orders do
+    s := step2With o π ts s
+    outs := outs.push (SolverDrv.showDE s)
+  return s!"ok steps=({" ".intercalate outs.toList}) log={SolverDrv.pPairs s.log} hist={pFs (s.stepLog.map Prod.snd)}"
 
 def handle : Handler
+  | .sym "cfg" :: args => handleCfg args
+  | .sym "de2map" :: args => handleDE2 args
   | _ => "bad-op"
 
 end MysticVerif.DrvC07
